@@ -5,7 +5,7 @@
 use crate::checks::arch::{check_store, Arch, Model};
 use crate::obs::{guard, Ctx};
 use crate::refimpl::{self as R, REntry, RHeader};
-use crate::rng::{hash_u64s, Rng};
+use crate::rng::hash_u64s;
 use serde_json::{json, Value};
 use std::collections::BTreeMap;
 
@@ -14,6 +14,8 @@ pub enum Op {
     Add(u64, usize), // id, content index
     Remove(u64),
     Reopen(bool, u8), // async?, codec used for the save
+    /// add with EMPTY content: refused by contract (C19); the archive must stay as it was
+    AddEmpty(u64),
 }
 
 fn op_name(op: &Op) -> &'static str {
@@ -22,6 +24,7 @@ fn op_name(op: &Op) -> &'static str {
         Op::Remove(_) => "remove",
         Op::Reopen(false, _) => "reopen-sync",
         Op::Reopen(true, _) => "reopen-async",
+        Op::AddEmpty(_) => "add-empty",
     }
 }
 
@@ -30,6 +33,7 @@ fn show(op: &Op) -> String {
         Op::Add(id, c) => format!("add({id},c{c})"),
         Op::Remove(id) => format!("remove({id})"),
         Op::Reopen(a, c) => format!("save+reopen({},{})", if *a { "async" } else { "sync" }, R::codec_name(*c)),
+        Op::AddEmpty(id) => format!("add({id},<empty>)"),
     }
 }
 
@@ -112,6 +116,14 @@ pub fn apply(arch: Arch, model: &mut Model, op: &Op, contents: &[Vec<u8>]) -> Re
             model.remove(*id);
             Ok(arch)
         }
+        Op::AddEmpty(id) => {
+            // whether this is refused is C19's subject; here only the state afterwards counts. A library that
+            // accepts the empty add has left the domain of this model: the history is abandoned, not judged.
+            match arch.add(*id, Vec::new()) {
+                Err(_) => Ok(arch),
+                Ok(()) => Err(String::from("ABANDON: empty add accepted")),
+            }
+        }
         Op::Reopen(asyncm, codec) => {
             arch.set_codec(*codec);
             let bytes = arch.save().map_err(|e| format!("save failed: {e}"))?;
@@ -148,7 +160,7 @@ fn run_history(ctx: &mut Ctx, start_foreign: bool, ops: &[Op], contents: &[Vec<u
     for (k, op) in ops.iter().enumerate() {
         // evidence: transition (op kind x abstract pre-state of the target id)
         let target = match op {
-            Op::Add(id, _) | Op::Remove(id) => Some(*id),
+            Op::Add(id, _) | Op::Remove(id) | Op::AddEmpty(id) => Some(*id),
             Op::Reopen(..) => None,
         };
         let okind = match op {
@@ -156,12 +168,17 @@ fn run_history(ctx: &mut Ctx, start_foreign: bool, ops: &[Op], contents: &[Vec<u
             Op::Remove(_) => 1,
             Op::Reopen(false, _) => 2,
             Op::Reopen(true, _) => 3,
+            Op::AddEmpty(_) => 4,
         };
         let pre = target.map_or(4, |t| model.abs(t));
         *trans.entry((okind, pre)).or_insert(0) += 1;
         let res = guard(|| apply(arch, &mut model, op, contents));
         arch = match res {
             Ok(Ok(a)) => a,
+            Ok(Err(e)) if e.starts_with("ABANDON") => {
+                ctx.count("histories_abandoned_empty_add_accepted");
+                return;
+            }
             Ok(Err(e)) => {
                 ctx.violation(
                     &format!("history/{}", op_name(op)),
@@ -241,7 +258,8 @@ pub fn run(ctx: &mut Ctx) {
     }
     alphabet.push(Op::Reopen(false, R::C_NONE));
     alphabet.push(Op::Reopen(true, R::C_NONE));
-    let k = alphabet.len() as u64; // 11
+    alphabet.push(Op::AddEmpty(5));
+    let k = alphabet.len() as u64; // 12
     let len = ctx.n(5, 6) as u32;
     let universe = [3u64, 4, 5, 6, 7];
     let mut case = 0u64;
@@ -334,10 +352,26 @@ pub fn run(ctx: &mut Ctx) {
                 ops.push(Op::Reopen(i % 24 == 5, R::C_NONE));
                 ops.push(Op::Reopen(i % 24 != 5, R::CODECS[(i % 4) as usize]));
             }
+            let huge = i % 24 == 17;
+            if huge {
+                // more than 2^16 directory entries through save + reopen: consecutive ids alternating between two
+                // short contents (no two neighbours merge into a run)
+                let bulk = *rng.pick(&[65_537u64, 66_000, 70_000]);
+                let base = 9_000_000u64;
+                for j in 0..bulk {
+                    ops.push(Op::Add(base + j, 1 + (j % 2) as usize));
+                }
+                ids.extend([base, base + 1, base + 65_534, base + 65_535, base + 65_536, base + bulk - 1]);
+                ops.push(Op::Reopen(false, R::CODECS[((i / 24) % 4) as usize]));
+                ops.push(Op::Reopen(true, R::CODECS[((i / 24 + 1) % 4) as usize]));
+                ctx.count("histories_with_more_than_65536_entries");
+            }
             for j in 0..nops {
                 let r = rng.below(100);
                 if j % 50 == 49 {
                     ops.push(Op::Reopen((j / 50) % 2 == 1, R::CODECS[(j / 50) % 4]));
+                } else if r < 4 {
+                    ops.push(Op::AddEmpty(*rng.pick(&ids)));
                 } else if r < 60 {
                     ops.push(Op::Add(*rng.pick(&ids), rng.usize(0, pool.len() - 1)));
                 } else {
@@ -354,7 +388,7 @@ pub fn run(ctx: &mut Ctx) {
             universe.sort_unstable();
             universe.dedup();
             let fp = hash_u64s(&ops.iter().map(|o| crate::rng::hash_bytes(show(o).as_bytes())).collect::<Vec<_>>());
-            run_history(ctx, i % 2 == 1, &ops, &pool, &universe, 25, &mut trans, &mut states);
+            run_history(ctx, i % 2 == 1, &ops, &pool, &universe, if huge { 50_000 } else { 25 }, &mut trans, &mut states);
             ctx.case(fp, true);
             ctx.max("random_history_length", nops as u64);
             if ctx.want_sample() {
@@ -365,7 +399,7 @@ pub fn run(ctx: &mut Ctx) {
         case += 1;
     }
     // evidence: transition matrix and distinct abstract states
-    let names = ["add", "remove", "reopen-sync", "reopen-async"];
+    let names = ["add", "remove", "reopen-sync", "reopen-async", "add-empty"];
     let pres = ["absent", "mem-unique", "mem-shared", "backed", "n/a"];
     for ((o, p), n) in &trans {
         ctx.add(&format!("transition.{}.{}", names[*o as usize], pres[*p as usize]), *n);
